@@ -40,7 +40,8 @@ Next == /\ l <= Len(Trace)
 Spec == Init /\ [][Next]_vars
 TraceAccepted == TLCGet(1) = Len(Trace)
 
-IsState == cur.kind \in {"genesis", "block", "end"}
+IsState == cur.kind \in {"genesis", "block", "end", "proposal"}
+\* "proposal" = the proposer's working state after building a block (what its proposed state root commits to)
 
 \* ---- C04 ----
 SumEq == IsState => /\ Scan.sumResidual = "0"
